@@ -10,7 +10,7 @@ DEMO=$(ls $SRC/_seed/demo.py $SRC/_seed/test_demo.py 2>/dev/null | head -1)
 [ -n "$DEMO" ] || { echo "no demo"; exit 2; }
 WT=$(mktemp -d /tmp/seedchk-XXXXXX); rmdir "$WT"
 git -C /repo worktree add --detach "$WT" HEAD >/dev/null 2>&1 || exit 2
-mkdir -p "$WT/_seed"; cp "$DEMO" "$WT/_seed/"
+mkdir -p "$WT/_seed"; cp "$SRC"/_seed/*.py "$WT/_seed/"
 DB=$(basename "$DEMO")
 rundemo() { if [ "$DB" = demo.py ]; then (cd "$WT" && PYTHONPATH="$WT" timeout 300 /venv/bin/python _seed/demo.py >/dev/null 2>&1); else (cd "$WT" && PYTHONPATH="$WT" timeout 300 /venv/bin/python -m pytest -q -p no:cacheprovider _seed/test_demo.py >/dev/null 2>&1); fi; echo $?; }
 CLEAN=$(rundemo)
@@ -24,6 +24,6 @@ RC=$?
 if [ $RC -eq 1 ]; then RES="DETECTED: $(grep -m1 -A1 '^VIOLATION' "$OUT/log" | tail -1 | cut -c1-200)"; elif [ $RC -eq 0 ]; then RES="MISSED by $PID quick"; else RES="CHECK-ERROR($RC): $(tail -2 "$OUT/log" | tr '\n' ' ' | cut -c1-200)"; fi
 echo "SEED $NAME: $RES"
 mkdir -p "$V/seeded/$NAME"
-cp "$PATCH" "$V/seeded/$NAME/patch.diff"; cp "$DEMO" "$V/seeded/$NAME/"; [ -f "$SRC/_seed/NOTES.md" ] && cp "$SRC/_seed/NOTES.md" "$V/seeded/$NAME/NOTES.md"
+cp "$PATCH" "$V/seeded/$NAME/patch.diff"; cp "$SRC"/_seed/*.py "$V/seeded/$NAME/"; [ -f "$SRC/_seed/NOTES.md" ] && cp "$SRC/_seed/NOTES.md" "$V/seeded/$NAME/NOTES.md"
 echo "{\"demo_clean\": $CLEAN, \"demo_with_patch\": $BROKEN, \"check\": \"$PID\", \"check_exit\": $RC}" > "$V/seeded/$NAME/result.json"
 git -C /repo worktree remove --force "$WT"; rm -rf "$OUT"
